@@ -532,9 +532,42 @@ def r12(ctx, facts):
                    "%s assigns through a `&mut` to the whole pending update: whatever was pending is dropped" % (bad[0][0] if bad else ""), bad[0][1] if bad else None)
 
 
+def r13(ctx, facts):
+    """order between the two kinds of update: a full fetch is started after, and supersedes, every partial fetch that is still
+    pending (the reader preempts partial fetches in flight). merge_metadata therefore publishes the fetched metadata AS FETCHED:
+    nothing older - a pending partial peer list, pending client routes - may be written into it (seed C19-k)."""
+    r = ctx.rule("R13", "merge_metadata hands on the freshly fetched metadata unmodified (an older pending partial update is never folded into it)", floor=1)
+    b = facts.one(r"^scylla::cluster::metadata::update::MetadataUpdate::merge_metadata$")
+    ps = [l for l in range(1, b.argc + 1) if b.local_ty(l).endswith("::Metadata")]
+    if len(ps) != 1:
+        raise AnchorLost("merge_metadata: expected one parameter of type Metadata, found %d" % len(ps))
+    P = ps[0]
+    # locals the parameter is moved into as a whole before it is stored
+    holders, work = {P}, [P]
+    while work:
+        l = work.pop()
+        for bb in b.live_blocks:
+            for st in b.stmts(bb):
+                if st[0] == "A" and not st[1][1] and st[2][0] == "use" and st[2][1][0] in ("c", "m") and st[2][1][1][0] == l and not st[2][1][1][1] and st[1][0] not in holders:
+                    holders.add(st[1][0])
+                    work.append(st[1][0])
+    bad = []
+    for bb in sorted(b.live_blocks):
+        for st in b.stmts(bb):
+            if st[0] != "A":
+                continue
+            if st[1][0] in holders and st[1][1]:
+                bad.append(("a field of the fetched metadata is assigned", b.stmt_span(st)))
+            if st[2][0] in ("ref", "addr") and (st[2][1] == "m" or st[2][0] == "addr") and st[2][2][0] in holders:
+                bad.append(("the fetched metadata is borrowed mutably", b.stmt_span(st)))
+    r.instance("fetched-metadata-is-stored-as-fetched", not bad,
+               "%s in merge_metadata before it is stored: whatever is written there comes from an update that was pending, i.e. was fetched EARLIER than this "
+               "metadata - the consumer would observe the older peers / routes as the newest state" % (bad[0][0] if bad else ""), bad[0][1] if bad else b.span)
+
+
 def check(ctx):
     facts = inline_view(ctx.facts("default"))
-    for fn in (r1_r4, r2, r3, r5, r6, r7, r8, r9, r10, r11, r12):
+    for fn in (r1_r4, r2, r3, r5, r6, r7, r8, r9, r10, r11, r12, r13):
         try:
             fn(ctx, facts)
         except AnchorLost as ex:
